@@ -47,6 +47,11 @@ func (f *FileStream) ReadAll() ([]rune, error) {
 		}
 
 		if len(res) == 0 {
+			// an incomplete character is pending: the next read either completes it
+			// or reports the error at the end of file
+			if len(f.encBuffer) > 0 {
+				continue
+			}
 			break
 		}
 		result = append(result, res...)
@@ -72,10 +77,11 @@ func (f *FileStream) read(n int) ([]rune, error) {
 	}
 	f.encBuffer = remains
 
-	if !f.hasRead {
+	// the first character may arrive later than the first read (when n is small)
+	if !f.hasRead && len(data) > 0 {
 		f.hasRead = true
 		// detect BOM, if BOM on the first char, then remove it directly.
-		if len(data) > 0 && data[0] == BOM {
+		if data[0] == BOM {
 			data = data[1:]
 		}
 	}
